@@ -50,3 +50,45 @@ theorem toInt?_val (d : EO.Dy) (n : Int) (h : d.toInt? = some n) : (n : ℚ) = d
     · cases h
 
 end EOQ
+
+namespace EOQ
+
+/-- the IEEE-754 value of the bit pattern of a FINITE binary floating-point number with `eb` exponent bits and `mb`
+    fraction bits: `(-1)^s · frac · 2^(1-bias-mb)` for a subnormal, `(-1)^s · (2^mb + frac) · 2^(ex-bias-mb)` otherwise -/
+def ieeeValue (eb mb bits : Nat) : ℚ :=
+  (if bits / 2 ^ (mb + eb) % 2 = 1 then -1 else 1) *
+    (if bits / 2 ^ mb % 2 ^ eb = 0 then ((bits % 2 ^ mb : Nat) : ℚ) * (2 : ℚ) ^ (1 - ((2 : Int) ^ (eb - 1) - 1) - (mb : Int))
+     else ((2 ^ mb + bits % 2 ^ mb : Nat) : ℚ) *
+       (2 : ℚ) ^ (((bits / 2 ^ mb % 2 ^ eb : Nat) : Int) - ((2 : Int) ^ (eb - 1) - 1) - (mb : Int)))
+
+/-- infinities and NaN (all exponent bits set) are the only patterns that are rejected -/
+theorem decodeBits_none_iff (eb mb bits : Nat) :
+    EO.decodeBits eb mb bits = none ↔ bits / 2 ^ mb % 2 ^ eb = 2 ^ eb - 1 := by
+  unfold EO.decodeBits
+  simp only
+  split
+  · rename_i h; simp only [beq_iff_eq] at h; simp [h]
+  · rename_i h; simp only [beq_iff_eq] at h; simp [h]
+
+set_option linter.unnecessarySeqFocus false in
+/-- **exactness of the float decoding**: for every bit pattern of a finite float the dyadic returned by
+    `EO.decodeBits` denotes exactly the IEEE-754 value -/
+theorem decodeBits_exact (eb mb bits : Nat) (d : EO.Dy) (h : EO.decodeBits eb mb bits = some d) :
+    dyVal d = ieeeValue eb mb bits := by
+  unfold EO.decodeBits at h
+  simp only at h
+  unfold dyVal ieeeValue
+  generalize bits % 2 ^ mb = frac at h ⊢
+  generalize bits / 2 ^ mb % 2 ^ eb = ex at h ⊢
+  generalize bits / 2 ^ (mb + eb) % 2 = s at h ⊢
+  split at h
+  · cases h
+  · simp only [Option.some.injEq] at h
+    subst h
+    have h2 : (0 : ℤ) < 2 ^ mb := by positivity
+    have h3 : (0 : ℤ) ≤ (frac : ℤ) := Int.natCast_nonneg _
+    have hpos : ¬ ((2 : ℤ) ^ mb + (frac : ℤ) = 0) := by intro h; linarith
+    by_cases hex : ex = 0 <;> by_cases hs : s = 1 <;> by_cases hm : frac = 0 <;>
+      simp [hex, hs, hm, hpos] <;> ring
+
+end EOQ
